@@ -89,6 +89,11 @@ fn main() {
             }
             std::process::exit(worst)
         }
+        "miri-lane" => {
+            let start: u64 = args.get(2).and_then(|s| s.parse().ok()).unwrap_or(0);
+            let count: u64 = args.get(3).and_then(|s| s.parse().ok()).unwrap_or(100);
+            std::process::exit(props::c04::miri_lane(start, count))
+        }
         "inproc" => {
             let start: u64 = args.get(3).and_then(|s| s.parse().ok()).unwrap_or(0);
             let count: u64 = args.get(4).and_then(|s| s.parse().ok()).unwrap_or(100);
